@@ -260,11 +260,6 @@ def run(ctx, report: Report) -> None:
     from .c18 import range_table
     _, mr = src.func('css_match.CSSMatch.match_range')
     itype_var = None
-    for st in walk_no_nested(mr):
-        if isinstance(st, ast.Assign) and isinstance(st.targets[0], ast.Name) and "'type'" in unparse(st.value):
-            itype_var = st.targets[0].id
-    if itype_var is None:
-        raise AnalysisError('match_range: input type variable not found')
     range_table(ctx, report, r4, mmod, mr, itype_var)
     for f in r4.findings:
         f.rule = 'C17-R4'
